@@ -198,7 +198,7 @@ func GenRequest(r *core.Rand, o GenOpts) *Request {
 	if r.Chance(30) {
 		k := r.Range(1, 3)
 		for i := 0; i < k; i++ {
-			nm := core.Pick(r, append(append([]string{}, plainNames...), "X-Case-Other", "Keep-Alive", "Cookie"))
+			nm := core.Pick(r, append(append([]string{}, plainNames...), "X-Case-Other", "Keep-Alive", "Cookie", "Via", "X-Forwarded-For", "User-Agent", "X-Forwarded-Host"))
 			nominated = append(nominated, caseVariant(r, nm))
 		}
 	}
